@@ -25,6 +25,17 @@ type Job struct {
 	Journal  string          `json:"journal"`  // file holding the case about to run (crash forensics)
 	Scratch  string          `json:"scratch"`  // scratch directory for databases
 	Params   map[string]any  `json:"params"`
+	Known    []string        `json:"known"` // failure classes listed as known findings: recorded, do not stop
+}
+
+// IsKnown reports whether class is a listed known finding for this job's property.
+func (j *Job) IsKnown(class string) bool {
+	for _, k := range j.Known {
+		if k == class {
+			return true
+		}
+	}
+	return false
 }
 
 // Violation is one failed case, replayable.
@@ -158,6 +169,15 @@ func (r *Result) Sample(v any) {
 
 func (r *Result) Violate(class, desc string, replay any, trace string, events []string) {
 	b, _ := json.Marshal(replay)
+	n := 0
+	for _, v := range r.Violations {
+		if v.Class == class {
+			n++
+		}
+	}
+	if n >= 2 {
+		return // two instances per class are enough
+	}
 	if len(r.Violations) < 20 {
 		r.Violations = append(r.Violations, Violation{Desc: desc, Class: class, Replay: b, Trace: trace, Events: events})
 	}
